@@ -368,7 +368,11 @@ class Unit:
         if lifted is not None:
             sig, tail, stmt = lifted
             c = kw.get('contract', '').strip('\n')
-            pre = sig + ('\n' + c + '\n' if c else ' ') + ('{ ' if stmt else '')
+            # `open`: text put between the opening brace of the new function and the lifted
+            # range (with `tail` after it), for a range that is an expression or contains a
+            # `break` of the enclosing loop: `loop { let v = <range>; return Some(v); } None`
+            pre = (sig + ('\n' + c + '\n' if c else ' ') + ('{ ' if stmt else '')
+                   + (('/*@BODY:%s*/' % spec.key) if stmt else '') + kw['lift'].get('open', ''))
             splices.append((0, pre))
             if kw.get('loops'):
                 code = rsitems.lex_mask(text)
@@ -408,8 +412,7 @@ class Unit:
                 lo_m, hi_m = 0, len(text)
                 if not lifted[2]:
                     splices.append((1, '/*@BODY:%s*/' % spec.key))
-                else:
-                    splices.append((0, '/*@BODY:%s*/' % spec.key))
+                # (statement ranges: the marker is part of the prefix built above)
             else:
                 lo_m, hi_m = fp['body_open'], fp['body_close']
                 splices.append((lo_m + 1, '/*@BODY:%s*/' % spec.key))
